@@ -437,14 +437,32 @@ Section Order2.
   Qed.
 
   (* ---- apply ------------------------------------------------------------------ *)
-  Lemma kubectl_apply_shape s l :
-    r_tbl (fst (kubectl_apply sc s l)) = r_tbl s /\
-    (r_tr (fst (kubectl_apply sc s l)) = r_tr s \/
-     exists r ok m st, apply_req_for (l_id l) r /\ r_tr (fst (kubectl_apply sc s l)) = IReq r ok m st :: r_tr s).
+  (* the trace grows by apply requests for the object only (none, one, or - APIService fallback
+     after a stream error - the rejected apply PATCH followed by the requests of the second attempt) *)
+  Definition apply_items (d : id) (lt : list item) : Prop :=
+    Forall (fun it => exists r ok m st, it = IReq r ok m st /\ apply_req_for d r) lt.
+  Definition shape_l (l : lobj) (a b : rst) : Prop :=
+    r_tbl b = r_tbl a /\ exists lt, r_tr b = lt ++ r_tr a /\ apply_items (l_id l) lt.
+
+  Lemma shape_trans l a b c : shape_l l a b -> shape_l l b c -> shape_l l a c.
   Proof.
-    unfold kubectl_apply, get_obj, maybe_cancel, log_req. cbv zeta. dall; cbn;
-      (split; [reflexivity|]); first [left; reflexivity | right; eexists _, _, _, _; split; [|reflexivity]; reflexivity].
+    intros [T1 [l1 [E1 F1]]] [T2 [l2 [E2 F2]]]. split; [congruence|].
+    exists (l2 ++ l1). split; [rewrite E2, E1, app_assoc; reflexivity|apply Forall_app; split; assumption].
   Qed.
+
+  Ltac shape_leaf :=
+    (split; [reflexivity|]);
+    first [ exists []; split; [reflexivity|constructor]
+          | eexists [_]; split; [reflexivity|]; constructor; [eexists _, _, _, _; split; reflexivity|constructor] ].
+
+  Lemma shape_ssa l s n : shape_l l s (fst (ssa_patch sc s l n)).
+  Proof. unfold shape_l, ssa_patch, maybe_cancel, log_req. cbv zeta. dall; cbn; shape_leaf. Qed.
+
+  Lemma shape_csa l s : shape_l l s (fst (csa_apply sc s l)).
+  Proof. unfold shape_l, csa_apply, get_obj, maybe_cancel, log_req. cbv zeta. dall; cbn; shape_leaf. Qed.
+
+  Lemma kubectl_apply_shape s l : shape_l l s (fst (kubectl_apply sc s l)).
+  Proof. exact (kubectl_apply_step sc l (shape_l l) (shape_trans l) (shape_ssa l) (shape_csa l) s). Qed.
 
   Lemma policy_apply_filter_same s i :
     r_tbl (fst (policy_apply_filter sc s i)) = r_tbl s /\ r_tr (fst (policy_apply_filter sc s i)) = r_tr s.
@@ -467,10 +485,11 @@ Section Order2.
       pose proof (kubectl_apply_shape s1 l) as [KT KR].
       destruct (kubectl_apply sc s1 l) as [s2 r]. cbn [fst] in KT, KR.
       assert (H2 : Inv s2).
-      { unfold Inv. rewrite KT. destruct KR as [->|[rq [ok [m [st [AR ->]]]]]]; [exact H1|].
-        apply invT_item; [intros j; reflexivity| |exact H1].
+      { unfold Inv. rewrite KT. destruct KR as [lt [-> AL]].
+        induction AL as [|it lt [rq [ok [m [st [-> AR]]]]] _ IH]; [exact H1|].
+        cbn [app]. apply invT_item; [intros j; reflexivity| |exact IH].
         rewrite (Hl l eq_refl) in AR. destruct rq; cbn in AR; try contradiction; subst; cbn;
-          (exists (r_tbl s1); split; [exact (proj1 H1)|exact DF]). }
+          (exists (r_tbl s1); split; [exact (proj1 IH)|exact DF]). }
       destruct r; apply RA; try reflexivity; exact H2.
     - apply RA; [reflexivity|exact H1].
     - apply RA; [reflexivity|exact H1].
